@@ -1,17 +1,19 @@
 import Proofs.C19E2E
+import Proofs.E2ERawBody
 /-!
 # C05 on spelled sources, for every good delimiter set: raw and comment blocks, end to end from bytes
 
 Combines `scan_spell` (the tokenizer reads a clean spelling back), the block parser, the compiler and
 the renderer: `run` on the bytes `TL raw TR body… TL endraw TR`.
+
+Since the repair `fixes/raw-comment-lexical` the tokenizer treats raw and comment lexically, and the
+theorems at the end of this file hold for EVERY body: any bytes in which no end tag of the block begins
+(`raw_body_bytes_emitted`, `comment_body_bytes_dropped`) — unclosed `{%` and `{{` included, which before
+the repair swallowed the end tag.
 -/
 
 def Item.objArgs : Item → Option Bytes
   | .obj args _ _ _ _ => some args
-  | _ => none
-
-def Item.tagName : Item → Option Bytes
-  | .tag name _ _ _ _ _ _ => some name
   | _ => none
 
 /-- the arguments of every object are inside the expression-lexer model (no negative-zero literal) -/
@@ -158,22 +160,194 @@ theorem comment_source_renders_nothing (P : Prims) (O : OutPrims) (cfg : Cfg) (f
       · simp only [List.mem_singleton] at ht; subst ht; intro h; cases h
       · cases ht
 
-/-- `[ raw ]<<- x | >>[ if ][ endraw ]` under `<< >> [ ]` renders to `<<- x | >>[ if ]` (the object is not an
-    expression, the `if` is never closed: the body is not parsed) -/
-example : run stdPrims stdOut { delims := [[60, 60], [62, 62], [91], [93]] } (fsOfList []) 1
-    (spell exDelims [.tag rawName [] false false [32] [] [32], .obj [120, 32, 124] true false [32] [32],
-      .tag [105, 102] [] false false [32] [] [32], .tag endrawName [] false false [32] [] [32]]) 1 []
-    = .ok (spell exDelims [.obj [120, 32, 124] true false [32] [32], .tag [105, 102] [] false false [32] [] [32]]) :=
-  raw_source_renders_body stdPrims stdOut { delims := [[60, 60], [62, 62], [91], [93]] } (fsOfList []) 1 1 []
-    [.obj [120, 32, 124] true false [32] [32], .tag [105, 102] [] false false [32] [] [32]] false false [32] [] [32] [32] [] [32]
-    (by decide) (by decide) (by decide)
-    (by rfl)
+/-! ## The body as arbitrary bytes -/
 
-/-- `{% comment -%} {{ | }}{% endif %}{%- endcomment %}` under the defaults renders to nothing -/
+/-- **C05, from source bytes, EVERY body (raw).** For every good delimiter set and every byte string `body`
+    in which no `endraw` tag begins (`TL -? \s* endraw \s* -? TR`, decided by `endTagAtB`; no other
+    condition: the body may hold unclosed or unbalanced delimiters, objects that are not expressions, tags
+    of any kind), the source `TL raw TR body TL endraw TR` renders to exactly `body`. -/
+theorem raw_body_bytes_emitted (P : Prims) (O : OutPrims) (cfg : Cfg) (fs : FS) (fuel line : Nat) (env : Env)
+    (body : Bytes) (hr1 hl2 : Bool) (wl1 wm1 wr1 wl2 wm2 wr2 : Bytes)
+    (hg : GoodDelims (Delims.ofList cfg.delims))
+    (ho : CleanItem (Delims.ofList cfg.delims) (.tag rawName [] false hr1 wl1 wm1 wr1))
+    (hc : CleanItem (Delims.ofList cfg.delims) (.tag endrawName [] hl2 false wl2 wm2 wr2))
+    (hin : ∀ i, i < body.length → endTagAtB (Delims.ofList cfg.delims) endrawName
+      ((body ++ (Item.tag endrawName [] hl2 false wl2 wm2 wr2).spell (Delims.ofList cfg.delims)).drop i) = false) :
+    run P O cfg fs fuel
+      ((Item.tag rawName [] false hr1 wl1 wm1 wr1).spell (Delims.ofList cfg.delims) ++
+        (body ++ (Item.tag endrawName [] hl2 false wl2 wm2 wr2).spell (Delims.ofList cfg.delims))) line env = .ok body := by
+  have hclean := clean_lex_block (Delims.ofList cfg.delims) hg nameRaw (.inl rfl) body false hr1 hl2 false wl1 wm1 wr1 wl2 wm2 wr2 []
+    ho ⟨hc, fun h => absurd rfl h, trivial, trivial⟩ (fun i hi => by have := hin i hi; simp only [spell, List.append_nil]; exact this)
+  have := raw_source_renders_body P O cfg fs fuel line env (optText body) hr1 hl2 wl1 wm1 wr1 wl2 wm2 wr2 hg hclean
+    (by intro it hit; unfold optText at hit; split at hit
+        · cases hit
+        · simp only [List.mem_singleton] at hit; subst hit; intro h; cases h)
+    (by unfold ObjsModelled optText; split <;> rfl)
+  rw [spell_optText] at this
+  rw [← this, spell_block]
+  simp [spell]
+
+/-- **C05, from source bytes, EVERY body (comment).** For every good delimiter set and every byte string
+    `body` in which no `endcomment` tag begins, the source `TL comment TR body TL endcomment TR` renders
+    to nothing and is never an error. -/
+theorem comment_body_bytes_dropped (P : Prims) (O : OutPrims) (cfg : Cfg) (fs : FS) (fuel line : Nat) (env : Env)
+    (body : Bytes) (hr1 hl2 : Bool) (wl1 wm1 wr1 wl2 wm2 wr2 : Bytes)
+    (hg : GoodDelims (Delims.ofList cfg.delims))
+    (ho : CleanItem (Delims.ofList cfg.delims) (.tag commentName [] false hr1 wl1 wm1 wr1))
+    (hc : CleanItem (Delims.ofList cfg.delims) (.tag endcommentName [] hl2 false wl2 wm2 wr2))
+    (hin : ∀ i, i < body.length → endTagAtB (Delims.ofList cfg.delims) endcommentName
+      ((body ++ (Item.tag endcommentName [] hl2 false wl2 wm2 wr2).spell (Delims.ofList cfg.delims)).drop i) = false) :
+    run P O cfg fs fuel
+      ((Item.tag commentName [] false hr1 wl1 wm1 wr1).spell (Delims.ofList cfg.delims) ++
+        (body ++ (Item.tag endcommentName [] hl2 false wl2 wm2 wr2).spell (Delims.ofList cfg.delims))) line env = .ok [] := by
+  have hclean := clean_lex_block (Delims.ofList cfg.delims) hg nameComment (.inr rfl) body false hr1 hl2 false wl1 wm1 wr1 wl2 wm2 wr2 []
+    ho ⟨hc, fun h => absurd rfl h, trivial, trivial⟩ (fun i hi => by have := hin i hi; simp only [spell, List.append_nil]; exact this)
+  have := comment_source_renders_nothing P O cfg fs fuel line env (optText body) hr1 hl2 wl1 wm1 wr1 wl2 wm2 wr2 hg hclean
+    (by intro it hit; unfold optText at hit; split at hit
+        · cases hit
+        · simp only [List.mem_singleton] at hit; subst hit; intro h; cases h)
+    (by unfold ObjsModelled optText; split <;> rfl)
+  rw [← this, spell_block]
+  simp [spell]
+
+/-! The former counterexamples (K-C05-raw-unclosed-delimiter, K-C05-comment-unclosed-delimiter): bodies with an opening
+    delimiter that is not closed inside the body. -/
+def exStdTag (n : Bytes) : Item := .tag n [] false false [32] [] [32]
+
+/-- `{% raw %}{% b {% endraw %}` renders to `{% b ` -/
 example : run stdPrims stdOut {} (fsOfList []) 1
-    (spell Delims.default [.tag commentName [] false true [32] [] [], .text [32], .obj [124] false false [32] [32],
-      .tag [101, 110, 100, 105, 102] [] false false [32] [] [32], .tag endcommentName [] true false [32] [] [32]]) 1 []
+    ((exStdTag rawName).spell Delims.default ++ ([123, 37, 32, 98, 32] ++ (exStdTag endrawName).spell Delims.default)) 1 []
+    = .ok [123, 37, 32, 98, 32] :=
+  raw_body_bytes_emitted stdPrims stdOut {} (fsOfList []) 1 1 [] [123, 37, 32, 98, 32] false false [32] [] [32] [32] [] [32]
+    (by decide) (by decide) (by decide) (by decide)
+/-- `{% raw %}a {{ x {% endraw %}` renders to `a {{ x ` -/
+example : run stdPrims stdOut {} (fsOfList []) 1
+    ((exStdTag rawName).spell Delims.default ++ ([97, 32, 123, 123, 32, 120, 32] ++ (exStdTag endrawName).spell Delims.default)) 1 []
+    = .ok [97, 32, 123, 123, 32, 120, 32] :=
+  raw_body_bytes_emitted stdPrims stdOut {} (fsOfList []) 1 1 [] [97, 32, 123, 123, 32, 120, 32] false false [32] [] [32] [32] [] [32]
+    (by decide) (by decide) (by decide) (by decide)
+/-- `{% raw %}%}\t{%b c{{- x -}}{% endraw %}` renders to `%}\t{%b c{{- x -}}` -/
+example : run stdPrims stdOut {} (fsOfList []) 1
+    ((exStdTag rawName).spell Delims.default ++
+      ([37, 125, 9, 123, 37, 98, 32, 99, 123, 123, 45, 32, 120, 32, 45, 125, 125] ++ (exStdTag endrawName).spell Delims.default)) 1 []
+    = .ok [37, 125, 9, 123, 37, 98, 32, 99, 123, 123, 45, 32, 120, 32, 45, 125, 125] :=
+  raw_body_bytes_emitted stdPrims stdOut {} (fsOfList []) 1 1 [] [37, 125, 9, 123, 37, 98, 32, 99, 123, 123, 45, 32, 120, 32, 45, 125, 125]
+    false false [32] [] [32] [32] [] [32] (by decide) (by decide) (by decide) (by decide)
+/-- `{% comment %}{% if {% endcomment %}` renders to nothing -/
+example : run stdPrims stdOut {} (fsOfList []) 1
+    ((exStdTag commentName).spell Delims.default ++ ([123, 37, 32, 105, 102, 32] ++ (exStdTag endcommentName).spell Delims.default)) 1 []
     = .ok [] :=
-  comment_source_renders_nothing stdPrims stdOut {} (fsOfList []) 1 1 []
-    [.text [32], .obj [124] false false [32] [32], .tag [101, 110, 100, 105, 102] [] false false [32] [] [32]]
-    true true [32] [] [] [32] [] [32] (by decide) (by decide) (by decide) (by rfl)
+  comment_body_bytes_dropped stdPrims stdOut {} (fsOfList []) 1 1 [] [123, 37, 32, 105, 102, 32] false false [32] [] [32] [32] [] [32]
+    (by decide) (by decide) (by decide) (by decide)
+/-- the same under `<< >> [ ]`, with hyphens: `[ raw-]<<- x | >>[ if [-endraw ]` renders to `<<- x | >>[ if ` -/
+example : run stdPrims stdOut { delims := [[60, 60], [62, 62], [91], [93]] } (fsOfList []) 1
+    ((Item.tag rawName [] false true [32] [] []).spell exDelims ++
+      ([60, 60, 45, 32, 120, 32, 124, 32, 62, 62, 91, 32, 105, 102, 32] ++ (Item.tag endrawName [] true false [] [] [32]).spell exDelims)) 1 []
+    = .ok [60, 60, 45, 32, 120, 32, 124, 32, 62, 62, 91, 32, 105, 102, 32] :=
+  raw_body_bytes_emitted stdPrims stdOut { delims := [[60, 60], [62, 62], [91], [93]] } (fsOfList []) 1 1 []
+    [60, 60, 45, 32, 120, 32, 124, 32, 62, 62, 91, 32, 105, 102, 32] true true [32] [] [] [] [] [32]
+    (by decide) (by decide) (by decide) (by decide)
+
+/-! ## The block ends at the FIRST end tag; what stands before and after -/
+
+/-- **C05 (raw and comment are lexical: the tokens).** For every good delimiter set: an optional clean text `T1`,
+    the opening tag of a raw or comment block, ANY bytes `body` in which no end tag of the block begins, the end
+    tag, and any clean remainder `post` — which may hold further end tags: the block ends at the FIRST one — are
+    tokenized as: the text, the opening tag (with its trim markers), ONE text token holding `body` (none when it is
+    empty), the end tag, and the tokens of `post`, with the line numbers of `scan_lines`. -/
+theorem lex_block_tokens (delims : List Bytes) (nm : Bytes) (hnm : nm = rawName ∨ nm = commentName) (T1 body : Bytes)
+    (hl1 hr1 hl2 hr2 : Bool) (wl1 wm1 wr1 wl2 wm2 wr2 : Bytes) (post : List Item) (line : Nat)
+    (hg : GoodDelims (Delims.ofList delims))
+    (hT1 : ∀ i, i < T1.length →
+      ¬ (Delims.ofList delims).ol <+: (T1 ++ spell (Delims.ofList delims)
+          (.tag nm [] hl1 hr1 wl1 wm1 wr1 :: (optText body ++ .tag (endPrefix ++ nm) [] hl2 hr2 wl2 wm2 wr2 :: post))).drop i ∧
+      ¬ (Delims.ofList delims).tl <+: (T1 ++ spell (Delims.ofList delims)
+          (.tag nm [] hl1 hr1 wl1 wm1 wr1 :: (optText body ++ .tag (endPrefix ++ nm) [] hl2 hr2 wl2 wm2 wr2 :: post))).drop i)
+    (ho : CleanItem (Delims.ofList delims) (.tag nm [] hl1 hr1 wl1 wm1 wr1))
+    (hpost : Clean (Delims.ofList delims) (.tag (endPrefix ++ nm) [] hl2 hr2 wl2 wm2 wr2 :: post))
+    (hin : ∀ i, i < body.length → endTagAtB (Delims.ofList delims) (endPrefix ++ nm)
+      ((body ++ spell (Delims.ofList delims) (.tag (endPrefix ++ nm) [] hl2 hr2 wl2 wm2 wr2 :: post)).drop i) = false) :
+    scan delims (T1 ++ ((Item.tag nm [] hl1 hr1 wl1 wm1 wr1).spell (Delims.ofList delims) ++
+        (body ++ spell (Delims.ofList delims) (.tag (endPrefix ++ nm) [] hl2 hr2 wl2 wm2 wr2 :: post)))) line =
+      tokensOf (Delims.ofList delims)
+        (optText T1 ++ .tag nm [] hl1 hr1 wl1 wm1 wr1 :: (optText body ++ .tag (endPrefix ++ nm) [] hl2 hr2 wl2 wm2 wr2 :: post)) line := by
+  have hblock := clean_lex_block (Delims.ofList delims) hg nm hnm body hl1 hr1 hl2 hr2 wl1 wm1 wr1 wl2 wm2 wr2 post ho hpost hin
+  have hclean : Clean (Delims.ofList delims)
+      (optText T1 ++ .tag nm [] hl1 hr1 wl1 wm1 wr1 :: (optText body ++ .tag (endPrefix ++ nm) [] hl2 hr2 wl2 wm2 wr2 :: post)) := by
+    unfold optText
+    split
+    · exact hblock
+    · next hne => exact ⟨hne, trivial, ⟨hT1, rfl⟩, hblock⟩
+  have := scan_spell delims _ line hg hclean
+  rw [spell_append, spell_optText, spell_block] at this
+  exact this
+
+/-- the token list of `lex_block_tokens`, written out -/
+theorem lex_block_tokens_explicit (d : Delims) (nm T1 body : Bytes) (hl1 hr1 hl2 hr2 : Bool) (wl1 wm1 wr1 wl2 wm2 wr2 : Bytes)
+    (post : List Item) (line : Nat) :
+    tokensOf d (optText T1 ++ .tag nm [] hl1 hr1 wl1 wm1 wr1 :: (optText body ++ .tag (endPrefix ++ nm) [] hl2 hr2 wl2 wm2 wr2 :: post)) line =
+      (if T1 = [] then [] else [{ ty := .text, line := line, source := T1 }]) ++
+      ((Item.tag nm [] hl1 hr1 wl1 wm1 wr1).tokens d (line + countNL T1) ++
+       ((if body = [] then [] else [{ ty := .text, line := line + countNL T1 + countNL ((Item.tag nm [] hl1 hr1 wl1 wm1 wr1).spell d),
+                                      source := body }]) ++
+        ((Item.tag (endPrefix ++ nm) [] hl2 hr2 wl2 wm2 wr2).tokens d
+            (line + countNL T1 + countNL ((Item.tag nm [] hl1 hr1 wl1 wm1 wr1).spell d) + countNL body) ++
+         tokensOf d post (line + countNL T1 + countNL ((Item.tag nm [] hl1 hr1 wl1 wm1 wr1).spell d) + countNL body +
+            countNL ((Item.tag (endPrefix ++ nm) [] hl2 hr2 wl2 wm2 wr2).spell d))))) := by
+  have hopt : ∀ (b : Bytes) (l : Nat), tokensOf d (optText b) l = if b = [] then [] else [{ ty := .text, line := l, source := b }] := by
+    intro b l; unfold optText; split <;> simp [tokensOf, Item.tokens]
+  simp only [tokensOf_append, tokensOf, spell_optText, hopt, List.append_assoc, List.cons_append, spell, Item.spell, List.append_nil]
+
+/-- `p{% raw %}a {{ x {% endraw %}q{% endraw %}`: the block ends at the first `endraw`; the second one is an
+    ordinary tag (which the block parser then rejects) -/
+example : (scan [] ([112] ++ ((exStdTag rawName).spell Delims.default ++
+    ([97, 32, 123, 123, 32, 120, 32] ++ spell Delims.default [exStdTag endrawName, .text [113], exStdTag endrawName]))) 1).map (fun t => (t.ty, t.source)) =
+    [(.text, [112]), (.tag, (exStdTag rawName).spell Delims.default), (.text, [97, 32, 123, 123, 32, 120, 32]),
+     (.tag, (exStdTag endrawName).spell Delims.default), (.text, [113]), (.tag, (exStdTag endrawName).spell Delims.default)] := by
+  have h := lex_block_tokens [] rawName (.inl rfl) [112] [97, 32, 123, 123, 32, 120, 32] false false false false [32] [] [32] [32] [] [32]
+      [.text [113], exStdTag endrawName] 1 (by decide) (by decide) (by decide) (by decide) (by decide)
+  refine (congrArg (List.map (fun t => (t.ty, t.source))) h).trans ?_
+  decide
+
+/-- **C05, from source bytes: a comment block anywhere contributes nothing.** Between ANY clean items `pre` (which the
+    block parser leaves outside comment/raw, or rejects) and `post`, a comment block whose body is ANY bytes (a text
+    item; `Clean` only asks that no `endcomment` tag begins inside it) can be deleted from the token list without
+    changing the result of the pipeline. -/
+theorem comment_block_anywhere (P : Prims) (O : OutPrims) (cfg : Cfg) (fs : FS) (fuel line : Nat) (env : Env)
+    (pre post : List Item) (body : Bytes) (wl1 wm1 wr1 wl2 wm2 wr2 : Bytes)
+    (hg : GoodDelims (Delims.ofList cfg.delims))
+    (hc : Clean (Delims.ofList cfg.delims)
+      (pre ++ .tag commentName [] false false wl1 wm1 wr1 :: (optText body ++ .tag endcommentName [] false false wl2 wm2 wr2 :: post)))
+    (hpre : ∀ s, parseLoop stdGrammar objChk {} (tokensOf (Delims.ofList cfg.delims) pre line) = .ok s → s.mode = .normal) :
+    run P O cfg fs fuel (spell (Delims.ofList cfg.delims)
+      (pre ++ .tag commentName [] false false wl1 wm1 wr1 :: (optText body ++ .tag endcommentName [] false false wl2 wm2 wr2 :: post))) line env =
+      runTokens P O cfg fs fuel (tokensOf (Delims.ofList cfg.delims) pre line ++ tokensOf (Delims.ofList cfg.delims) post
+        (line + countNL (spell (Delims.ofList cfg.delims)
+          (pre ++ [.tag commentName [] false false wl1 wm1 wr1] ++ optText body ++ [.tag endcommentName [] false false wl2 wm2 wr2])))) env := by
+  rw [run_eq_runTokens, scan_spell cfg.delims _ line hg hc, tokensOf_append]
+  have hb : tokensOf (Delims.ofList cfg.delims)
+      (.tag commentName [] false false wl1 wm1 wr1 :: (optText body ++ .tag endcommentName [] false false wl2 wm2 wr2 :: post))
+      (line + countNL (spell (Delims.ofList cfg.delims) pre)) =
+      (Item.tag commentName [] false false wl1 wm1 wr1).mainTok (Delims.ofList cfg.delims) (line + countNL (spell (Delims.ofList cfg.delims) pre)) ::
+        (tokensOf (Delims.ofList cfg.delims) (optText body)
+            (line + countNL (spell (Delims.ofList cfg.delims) pre) +
+              countNL ((Item.tag commentName [] false false wl1 wm1 wr1).spell (Delims.ofList cfg.delims))) ++
+          (Item.tag endcommentName [] false false wl2 wm2 wr2).mainTok (Delims.ofList cfg.delims)
+            (line + countNL (spell (Delims.ofList cfg.delims) pre) +
+              countNL ((Item.tag commentName [] false false wl1 wm1 wr1).spell (Delims.ofList cfg.delims)) +
+              countNL (spell (Delims.ofList cfg.delims) (optText body))) ::
+            tokensOf (Delims.ofList cfg.delims) post
+              (line + countNL (spell (Delims.ofList cfg.delims)
+                (pre ++ [.tag commentName [] false false wl1 wm1 wr1] ++ optText body ++ [.tag endcommentName [] false false wl2 wm2 wr2])))) := by
+    simp only [tokensOf, tokensOf_append, Item.tokens, Item.mainTok, Bool.false_eq_true, if_false, List.nil_append, List.append_nil,
+      List.cons_append, List.append_assoc, spell_append, spell, countNL_append, Nat.add_assoc]
+  rw [hb]
+  refine comment_block_erased P O cfg fs fuel env _ _ _ _ _ hpre ⟨rfl, rfl⟩ ⟨rfl, rfl⟩ ?_ ?_
+  · intro t ht
+    unfold optText at ht
+    split at ht
+    · cases ht
+    · simp only [tokensOf, Item.tokens, List.append_nil, List.mem_singleton] at ht
+      subst ht; intro h; cases h.1
+  · unfold optText
+    split <;> rfl
